@@ -248,6 +248,10 @@ def run(ctx):
                         'output entry value ' + norm(a.value) if a else 'output entry value',
                         'the arguments of an intercepted output are recorded uncopied although copy-on-interception is enabled: appending to a list '
                         'after it was sent to the output changes what is recorded'))
+    # ---- C11.f nothing handed out during a replay is kept on the recorder and handed out again (shared with C09.e)
+    from . import common as _ci
+    _ci.import_clauses(ctx, res, 'C09', ['C09.e'], 'C11', 'C11.f', 'R-WHOCALLS',
+                       'the recorder keeps no values between reads: outside the constructor it writes only the per-run fields', floor=4)
     return res
 
 
